@@ -264,6 +264,29 @@ def search(ctx):
                     break
         except Exception as ex:
             ctx.violation("C07:raises:%s:%s" % (name, type(ex).__name__), "%s on a many-pixel grid raised %r" % (name, ex), dict(kind="raises", theory=name))
+    # camera-sized images with SPARSE subsets of many pixels (a fit on 1 % of a 2-megapixel frame): distinct pixels, reproducible,
+    # values and coordinates of the selected pixels
+    for (bx_, by_, npx_) in ((2048, 1024, 20000), (1024, 1024, 10000)) if ctx.tier != "quick" else ((2048, 1024, 20000),):
+        imgL = data_grid(np.arange(bx_ * by_, dtype=float).reshape(bx_, by_), spacing=0.1, medium_index=1.33, illum_wavelen=0.66, illum_polarization=(1, 0))
+        for sd_ in range(6 if ctx.tier == "quick" else 20):
+            ctx.tried("subset-sparse-large", (bx_, by_, npx_, sd_))
+            try:
+                subL = make_subset_data(imgL, pixels=npx_, seed=1000 * ctx.seed + sd_)
+                xs_ = np.round(subL.x.values / 0.1).astype(int)
+                ys_ = np.round(subL.y.values / 0.1).astype(int)
+                flat_ = xs_ * by_ + ys_
+                ndist = len(np.unique(flat_))
+                if ndist != npx_ or subL.values.size != npx_:
+                    ctx.violation("C07:subset-distinct:sparse-large", "make_subset_data(%d x %d image, pixels=%d, seed=%d) selected %d distinct pixels" % (bx_, by_, npx_, 1000 * ctx.seed + sd_, ndist),
+                                  dict(kind="subset-sparse", shape=[bx_, by_], pixels=npx_, seed=1000 * ctx.seed + sd_))
+                    break
+                if not np.array_equal(subL.values.ravel(), flat_.astype(float)):
+                    ctx.violation("C07:subset-values:sparse-large", "a sparse subset of a %d x %d image does not carry the values of the pixels its coordinates name" % (bx_, by_),
+                                  dict(kind="subset-sparse", shape=[bx_, by_], pixels=npx_, seed=1000 * ctx.seed + sd_))
+                    break
+            except Exception as ex:
+                ctx.violation("C07:raises:subset-sparse:%s" % type(ex).__name__, "sparse subset of a large image raised %r" % (ex,), dict(kind="raises"))
+                break
     # scenes at EVERY distance scale (12 ... 200 um, in steps of 1.6x, the grid as wide as twice the height so that the far corner is
     # 1.7x farther than the centre): the far corner block computed alone (as a crop, as a point list, as a subset of the crop) equals
     # the same pixels of the full grid -- a value may not depend on how near the OTHER pixels of the call are
